@@ -212,6 +212,13 @@ def run(job: dict) -> dict:
                 pathlib.Path.rename = rename
 
         posix.Registry.close = close
+    if job.get('prime'):
+        # another registry holding the same project / release / generation keys is read first in this process
+        other = projgen.directory(job['prime']).get(job['project']).get(job['release'])
+        for key in other.list():
+            generation = other.get(key)
+            for index in range(len(generation.tag.states)):
+                generation.get(index)
     adir = projgen.directory(job['registry'])
     instance = asset.Instance(job['project'], job['release'], job.get('generation'), adir)
     feed = SymFeed(job['nonce'])
